@@ -65,7 +65,8 @@ PROPS = {
     },
     "C06": {
         "title": "every day belongs to exactly one solar term: ordered, evenly spaced, consistent",
-        "mc": {"quick": [{"module": "MC_TermClock", "cfg": "MC_TermClock.cfg", "workers": 4}]},
+        "mc": {"quick": [{"module": "MC_TermClock", "cfg": "MC_TermClock.cfg", "workers": 4},
+                         {"module": "MC_TermLookup", "cfg": "MC_TermLookup.cfg", "workers": 2}]},
         "rule": "all 24 terms of sampled years (quick: edges of the regimes 1-6, 640-643, 1580-84, 1644-46, 1959-62, 7270-80, 8714-18, 9995-99 + 50 seeded triples; thorough: every (year 1..9999, index)) with next(+-1), next(n) vs from_index for 10 step counts, name lookup, parity; "
                 "civil day walks (catalogue + 40 seeded windows; thorough every day) with the assigned term, day index, term day and next term day; instants one second before/at/after term instants and random instants inside terms. "
                 "Non-trivial: year carries (index 0/23), term days and days with index >= 14, boundary instants",
@@ -175,12 +176,15 @@ PROPS = {
     },
     "C14": {
         "title": "weeks of a month: seven consecutive days, right start weekday, no day lost",
-        "mc": {"quick": [{"module": "MC_Weeks", "cfg": "MC_Weeks.cfg", "workers": 2}]},
+        "mc": {"quick": [{"module": "MC_Weeks", "cfg": "MC_Weeks.cfg", "workers": 2},
+                         {"module": "MC_WeekStep", "cfg": "MC_WeekStep.cfg", "workers": 4}],
+               "thorough": [{"module": "MC_Weeks", "cfg": "MC_Weeks.cfg", "workers": 2},
+                            {"module": "MC_WeekStep", "cfg": "MC_WeekStep_big.cfg", "workers": 6, "heap": "8g"}]},
         "rule": "civil months: 16 fixed (incl. 1582-09/10/11, Februaries of century years) + 560 seeded (quick) or all months 0001-02..9999-11 (thorough), each with all 7 week starts: week count, listed weeks and their days, the week of every date, next(n) of the first and last week for 16 step counts (all of -60..60 on a slice), index in year, acceptance of indices 0..6; lunar months of 33 / 600 seeded years likewise. "
                 "Non-trivial: months whose first week straddles the previous month, 4- and 6-week months, October 1582",
         "exhaustive": {"quick": False, "thorough": True},
         "assumptions": ["lunar month first days / lengths are the implementation's own (C03)"],
-        "level_text": "TLC checks the complete case analysis of weeks in a month (MC_Weeks: 7 first weekdays x lengths 21/28/29/30/31 x 7 week starts, walked week by week) and validates the real code for every (month, week start) against the same operators on day numbers: count, first days on the chosen weekday 7 apart, seven consecutive days, coverage of every day, the week of each date containing it, next(n) moving the first day by 7n, index in the year, refusal of indices beyond the count; thorough covers every civil month x 7 starts",
+        "level_text": "TLC checks the complete case analysis of weeks in a month (MC_Weeks: 7 first weekdays x lengths 21/28/29/30/31 x 7 week starts, walked week by week) and the week-stepping ALGORITHM itself as a transition system (WeekStep.tla: one action per loop iteration of SolarWeek::next / LunarWeek::next over every abstract calendar of 3-4 months with lengths 21/28/29/30/31, every start weekday, offered week and |n| <= 6 / 9: the named week begins 7n days later, is one the month offers, and the loop terminates), and validates the real code for every (month, week start) against the same operators on day numbers: count, first days on the chosen weekday 7 apart, seven consecutive days, coverage of every day, the week of each date containing it, next(n) moving the first day by 7n, index in the year, refusal of indices beyond the count; thorough covers every civil month x 7 starts",
         "level_note": "trusted: Weeks.tla, Civil.tla, TLC, harness logging; weeks are compared by first day",
         "technique": "TLA+ week case analysis checked exhaustively with TLC + trace validation per (month, week start)",
     },
